@@ -9,7 +9,7 @@ def main(argv):
     pid = argv[1]
     tier, seed = common.tier_and_seed(argv)
     mod = importlib.import_module("vf.props." + pid.lower())
-    variants = getattr(mod, "VARIANTS", ["asan"])
+    variants = getattr(mod, "VARIANTS", [common.VARIANT])
     if "--no-build" not in argv:
         for v in variants:
             build.build(v)
